@@ -12,7 +12,9 @@ INSTANCE Cli
 Formats == {"par", "par2"}
 Spellings == [create |-> {"c", "create", "C", "Create"}, verify |-> {"v", "verify", "VERIFY"}, repair |-> {"r", "repair", "Repair"}]
 States == {"intact", "repairable", "atcapacity", "unrepairable", "nopar_intact", "nopar_damaged", "misplaced",
-           "badindex", "noindex", "partialfail"}
+           "appended", "badindex", "noindex", "partialfail"}
+\* "appended" (PAR2): zero bytes appended inside the padding of a partial last slice - every slice is still found in
+\* place, only the length and the file hash tell that the file is wrong (needed, possible)
 \* "partialfail" (PAR2): every protected file and the sub-directory of one of them are gone; Repair can
 \* rewrite the top-level files but the write into the missing directory fails: an I/O failure after a
 \* partial repair, i.e. "another failure" for repair; verify just sees missing files (needed, possible)
@@ -21,8 +23,8 @@ Paths == {"rel", "abs"}
 
 \* ground truth of each constructed state (the harness re-derives it from the bytes and reports it;
 \* the trace judge uses the harness's facts, this table is what the model expects them to be)
-Needed(s) == s \in {"repairable", "atcapacity", "unrepairable", "nopar_damaged", "misplaced", "partialfail"}
-Possible(s) == s \in {"intact", "repairable", "atcapacity", "nopar_intact", "misplaced", "partialfail"}
+Needed(s) == s \in {"repairable", "atcapacity", "unrepairable", "nopar_damaged", "misplaced", "appended", "partialfail"}
+Possible(s) == s \in {"intact", "repairable", "atcapacity", "nopar_intact", "misplaced", "appended", "partialfail"}
 IndexOK(s) == s \notin {"badindex", "noindex"}
 
 VARIABLE c
@@ -31,7 +33,7 @@ Next ==
   /\ c.kind = "root"
   /\ \/ \E f \in Formats, cmd \in {"verify", "repair"}, s \in States, w \in Cwds, p \in Paths :
           \E sp \in Spellings[cmd] :
-             /\ ~(f = "par" /\ s \in {"misplaced", "partialfail"})
+             /\ ~(f = "par" /\ s \in {"misplaced", "appended", "partialfail"})
              /\ ~(w = "unrelated" /\ p = "rel")
              /\ c' = [kind |-> "op", usage |-> "none", ext |-> f, cmd |-> cmd, spelling |-> sp, state |-> s, cwd |-> w, path |-> p,
                       index_ok |-> IndexOK(s), inputs_ok |-> TRUE, needed |-> Needed(s), possible |-> Possible(s),
